@@ -77,6 +77,60 @@ def implications(ctx, g):
     ctx.require(okt, "T3-commutation-exhaustive", b.name, "true<-queue empty", "`true` only when the work queue is empty", "check_and_apply_implications can return true while entries are still queued")
 
 
+def canonicity_slots(ctx, g):
+    """check_canonicity: for every chamber d in 1..=size whose flag is_remap_start[d] is set, the renumbering FROM THAT d is compared; a smaller
+    one rejects; a larger one clears the flag OF THAT SAME d (it can never become smaller again), an equal/undecided one keeps it"""
+    ctx.clauses.append("canonicity: flag tested, start compared and flag cleared belong to the same chamber d in 1..=size; smaller -> reject, larger -> clear, undecided -> keep (T4)")
+    b = ctx.body("generators::dset_generators::check_canonicity")
+    ctx.scan([b])
+    ds, flags = ("param", 1, b.debug.get(1, "")), ("param", 2, b.debug.get(2, ""))
+    cmpc = list(b.calls(exact="generators::dset_generators::compare_renumbered_from"))
+    ctx.floor("compare_renumbered_from calls in check_canonicity", len(cmpc), 1)
+    for bi, t in cmpc[:1]:
+        a = [strip(norm(b.origin(x), g)) for x in t["args"]]
+        d_ = a[1]
+        r = loop_range_of_payload(b, d_, g)
+        okr = r is not None and r[0] in (("int", 1), ("int", 2)) and r[2] and (is_call(r[1], "::size") or (r[1][0] == "field" and r[1][2] == "size")) and a[0] == ds
+        ctx.ob("T4-canonicity-slots", b.name, "starts 1..=size", "ok" if okr else "violation",
+               "every chamber up to size() is a candidate start (chamber 1 is the identity renumbering and never flagged)" if okr else "the candidate starts are not 1..=ds.size(): %s" % (r and (show(r[0], 1), show(r[1], 1)[:30], r[2]),), b.span_of(bi))
+        # guard: is_remap_start[d] is true at the call
+        fa = [atom_norm(x, g) for x in b.facts_at(bi)]
+        def is_flag(t_, idx):
+            t_ = strip(t_)
+            return (t_[0] == "index" and strip(t_[1]) == flags and strip(t_[2]) == idx) or (is_call(t_, "Index::index") and strip(t_[2][0]) == flags and strip(t_[2][1]) == idx)
+        okg = any(x[0] == "bool" and x[2] is True and is_flag(x[1], d_) for x in fa)
+        ctx.ob("T4-canonicity-slots", b.name, "compare<-is_remap_start[d]", "ok" if okg else "violation",
+               "the comparison runs for the starts whose flag is set" if okg else "the comparison is not guarded by is_remap_start[d] of the start that is compared", b.span_of(bi))
+        res = ("call", t["callee"]["def"], tuple(a))
+        # stores into the flag array
+        stores = []
+        for b2, blk in b.live_blocks():
+            for si, s_ in enumerate(blk["stmts"]):
+                if s_["k"] == "assign" and s_["place"]["l"] == 2 and any(e["k"] == "index" for e in s_["place"]["p"]):
+                    il = [e["l"] for e in s_["place"]["p"] if e["k"] == "index"][0]
+                    idx = strip(norm(b.local_origin(il), g))
+                    for _ in range(3):
+                        if idx[0] == "local" and len(b.all_defs_origins(idx[1])) == 1:
+                            idx = strip(norm(b.all_defs_origins(idx[1])[0][1], g))
+                    stores.append((b2, idx, norm(b.rv_origin(s_["rv"]), g)))
+        oks = len(stores) == 1 and stores[0][1] == d_ and stores[0][2] == ("int", 0)
+        if oks:
+            fa2 = [atom_norm(x, g) for x in b.facts_at(stores[0][0])]
+            oks = any(x[0] == "rel" and x[1] in ("Lt", "Le") and is_call(strip(x[3]), "compare_renumbered_from") and implies(x, ("rel", "Lt", ("int", 0), x[3])) for x in fa2)
+        ctx.ob("T4-canonicity-slots", b.name, "diff > 0 -> is_remap_start[d] = false", "ok" if oks else "violation",
+               "a start whose renumbering is larger loses its own flag" if oks else
+               "the flag cleared is not that of the start just compared, under diff > 0 (stores: %s): another chamber's flag is lost and a smaller renumbering from it is no longer detected" % [(show(i, 1)[:40], show(v, 1)) for _, i, v in stores])
+        # rejection
+        falses = [b2 for b2, si, s_ in b.assigns() if s_["place"]["l"] == 0 and not s_["place"]["p"] and norm(b.rv_origin(s_["rv"]), g) == ("int", 0)]
+        okf = False
+        for b2 in falses:
+            for x in b.facts_at(b2):
+                x = atom_norm(x, g)
+                if x[0] == "rel" and x[1] == "Lt" and is_call(strip(x[2]), "compare_renumbered_from") and x[3] == ("int", 0):
+                    okf = True
+        ctx.ob("T4-canonicity-slots", b.name, "diff < 0 -> false", "ok" if okf else "violation", "a smaller renumbering rejects the node" if okf else "no `return false` under diff < 0")
+
+
 def unov(t):
     """x.checked-op .0 -> plain binop"""
     return map_term(t, lambda x: ("binop", x[1][1].replace("WithOverflow", ""), x[1][2], x[1][3])
@@ -274,6 +328,7 @@ def run(ctx):
                "state %s is carried from one candidate image to the next" % extra)
     implications(ctx, g)
     walk_shape(ctx, g)
+    canonicity_slots(ctx, g)
     ctx.clauses.append("canonicity comparison and next-undefined search look at every operation 0..=dim() (T4)")
     gb = [b for d, b in sorted(ctx.facts.bodies.items()) if d.startswith("generators::dset_generators::") and "{closure" not in d]
     ctx.scan(gb)
